@@ -105,6 +105,20 @@ def build(template_path, out_path, canary=False, repo=None, mutate=None):
                     raise LostAnchor(f"require_text: {m.group(1)} no longer contains {lit[:60]!r}")
                 i += 1
                 continue
+            if s.startswith("//@ cut_consts "):
+                # every module-level `const` item of the file that is not cut explicitly (a constant introduced later is
+                # picked up automatically instead of making the unit undecided)
+                m = re.match(r"//@ cut_consts (\S+)(?: except=(\S+))?$", s)
+                sf0 = source(m.group(1))
+                skip = set((m.group(2) or "").split(","))
+                for it0 in sf0.items:
+                    if it0.kind == "const" and not it0.cfg_test and it0.name not in skip:
+                        txt0 = sf0.text(it0)
+                        out.append(f"// ---- vx cut_consts {m.group(1)} :: const {it0.name} ----")
+                        out.extend(txt0.split("\n"))
+                        norm_log.append(f"cut_consts: const {it0.name} of {m.group(1)} cut verbatim")
+                i += 1
+                continue
             if s.startswith("//@ frame_no_mention "):
                 # frame condition by token scan: the item must not mention the identifier at all (then it cannot write it)
                 m = re.match(r"//@ frame_no_mention (\S+) :: (.*?) :: (\w+)$", s)
